@@ -554,4 +554,51 @@ Proof.
     specialize (Hall n0). rewrite negb_true_iff in Hall. apply Hall. apply in_seq. lia.
 Qed.
 
+(* the settling run is one particular schedule: the actions it takes *)
+Definition settle1_acts (w : cworld) : list act :=
+  match cw_chan w with
+  | _ :: _ => [ADeliver 0]
+  | [] =>
+      match cw_reqs w with
+      | _ :: _ => [AAnswer 0]
+      | [] =>
+          if head_ready (node_sync w) then [AProcess]
+          else if check_enabled (node_sync w) then [ACheck]
+          else if converged w then []
+          else if armed HT HDT BT (node_sync w) then [AAdvance (settle_dt HT HDT BT); ATimeouts]
+          else []
+      end
+  end.
+
+Fixpoint settle_acts (n : nat) (w : cworld) : list act :=
+  match n with
+  | O => []
+  | S n' => settle1_acts w ++ settle_acts n' (wrun MAXR LIM HT HDT BT DELTA M parent_of w (settle1_acts w))
+  end.
+
+Lemma snext_acts w : snext w = wrun MAXR LIM HT HDT BT DELTA M parent_of w (settle1_acts w).
+Proof.
+  unfold snext, Peer.settle1, settle1_acts.
+  destruct (cw_chan w); [|reflexivity].
+  destruct (cw_reqs w); [|reflexivity].
+  destruct (head_ready (node_sync w)); [reflexivity|].
+  destruct (check_enabled (node_sync w)); [reflexivity|].
+  destruct (converged w); [reflexivity|].
+  destruct (armed HT HDT BT (node_sync w)); reflexivity.
+Qed.
+
+Lemma wrun_app w a b :
+  wrun MAXR LIM HT HDT BT DELTA M parent_of w (a ++ b) =
+  wrun MAXR LIM HT HDT BT DELTA M parent_of (wrun MAXR LIM HT HDT BT DELTA M parent_of w a) b.
+Proof. unfold Peer.wrun. apply fold_left_app. Qed.
+
+(* every world of the settling run is reachable from where it starts *)
+Lemma settle_reachable n : forall w, settle n w = wrun MAXR LIM HT HDT BT DELTA M parent_of w (settle_acts n w).
+Proof.
+  induction n as [|n IH]; intros w; [reflexivity|].
+  rewrite settle_S. cbn [settle_acts]. rewrite wrun_app, <- snext_acts.
+  destruct (skind w =? 0) eqn:E; [|apply IH].
+  apply Z.eqb_eq in E. rewrite (skind0_snext w E). rewrite <- IH. symmetry. apply settle_rest. exact E.
+Qed.
+
 End Settle.
